@@ -168,11 +168,19 @@ def run_shard(spec, ctx):
         level_certificate(a5, geo, spec['r'], spec['k'], ctx)
         return
     rnd = ctx.rnd
+    from rv import branch
+    bpts = branch.hostile_points(a5, rnd, 120, 100, 60)
+    ctx.counters['branch_boundary_points'] = len(bpts)
     for n in range(spec['n']):
-        kind = ('polar', 'frame', 'antimeridian', 'uniform', 'pattern', 'edge', 'seam', 'equator')[n % 8]
+        kind = ('polar', 'frame', 'antimeridian', 'uniform', 'pattern', 'edge', 'seam', 'equator', 'branch')[n % 9]
         r = rnd.randint(5, 29)
         try:
-            if kind == 'pattern':
+            if kind == 'branch':
+                if not bpts:
+                    continue
+                r = rnd.choice((29, 28, 27, 26, 25, 24, rnd.randint(8, 23)))
+                c = a5.lonlat_to_cell(branch.near(rnd, bpts[rnd.randrange(len(bpts))][0], geo.width(r)), r)
+            elif kind == 'pattern':
                 c = gen.cell_by_path(a5, rnd.randrange(12), rnd.randrange(5), gen.digits_pattern(rnd, r - 1))
             else:
                 p, _ = gen.point(rnd, a5, kind, r)
